@@ -280,7 +280,9 @@ pub fn builtin_tcp_socket_read(
         process_id,
         effect: NativeEffect::TcpSocketRead {
             resource_id,
-            length: length as usize,
+            // A read can return at most one binary's worth of bytes; the backend allocates
+            // a buffer of the requested length, so an absurd length must not reach it.
+            length: (length as usize).min(quiver_core::MAX_BINARY_SIZE),
         },
     }))
 }
